@@ -1005,6 +1005,30 @@ def rule_dynamic_query_polarity(ctx):
                             lits = tags.literals_of(prog, qb, s.node["args"][1], set())
                             argl = [l for l in lits if l.role == "ARG"]
                             n += 1
+                            if qb is not qb0 and len({l.pos for l in argl}) > 1:
+                                # a helper shared by the two kinds of query: judged once per constant its callers of this query hand it
+                                from .. import shapes as shp
+                                from ..core import excluded_blocks
+
+                                argl = []
+                                for y0 in prog.with_closures(qb0):
+                                    for cs in y0.calls():
+                                        if prog.body_for_callee(callee_of(cs), y0) is not qb:
+                                            continue
+                                        penv = {}
+                                        for k, a in enumerate(cs.node["args"]):
+                                            kc = op_const(a)
+                                            if kc is not None and "bool" in kc:
+                                                penv[k + 1] = kc["bool"]
+                                            elif kc is not None and kc.get("variant"):
+                                                penv[k + 1] = ("variant", kc["variant"])
+                                        bad = shp.infeasible_blocks(prog, qb, penv) if penv else frozenset()
+                                        with excluded_blocks(qb, bad):
+                                            l2 = tags.literals_of(prog, qb, s.node["args"][1], set())
+                                        argl += [l for l in l2 if l.role == "ARG"]
+                                if len({l.pos for l in argl}) > 1 or not argl:
+                                    r.ok(anchor, "NOT decided: the polarity of the queried literal is chosen by a parameter of %s the rule cannot evaluate" % qb.path.rsplit("::", 1)[-1], s.loc())
+                                    continue
                             if not argl or any(l.pos is None for l in argl):
                                 r.ok(anchor, "NOT decided: the queried argument's literal is not recognised among the assumptions (%s)" % lits, s.loc())
                                 continue
